@@ -227,6 +227,9 @@ func runStore(o *out, r *rng, thorough bool, pid string) {
 	case "C17":
 		o.Rule = "stores with first instance > 0, evolving tables and lengths crossing check-point boundaries are exported at every end point and imported into an empty datastore (observables compared with the exporter and the model); block-level corruptions (gap, reorder, surplus, header/manifest mismatch, wrong delta incl. compensating pairs) and byte-level truncations must be rejected; non-trivial = store has >=1 non-empty delta"
 	}
+	if pid == "C09" {
+		longStoreScenario(o, r, thorough)
+	}
 	x := &c04ctx{t: newTok(), sigs: map[string]*sigRec{}}
 	t := x.t
 	ctx := context.Background()
@@ -817,4 +820,113 @@ func mergeDelta(d certs.PowerTableDiff, extra certs.PowerTableDelta, tb gpbft.Po
 		out = replaceOrInsert(out, extra)
 	}
 	return out
+}
+
+// longStoreScenario: a store at the PRODUCTION check-point frequency holding well over a thousand certificates (a day of
+// finality), so that range reads, power-table derivations (hundreds of deltas past a check-point, across a check-point) and
+// reopening work on long histories: every clause of C09 evaluated directly against the generator's own books.
+func longStoreScenario(o *out, r *rng, thorough bool) {
+	ctx := context.Background()
+	n := 1500 + r.intn(200)
+	if thorough {
+		n = 3100 + r.intn(300)
+	}
+	first := uint64(r.intn(5))
+	g := newCertGen(r, 3+r.intn(3), first)
+	initial := g.table
+	ds := ds_sync.MutexWrap(datastore.NewMapDatastore())
+	h, err := certstore.CreateStore(ctx, ds, first, initial)
+	must(err)
+	tables := []gpbft.PowerEntries{initial} // tables[k] = table in force for instance first+k
+	var stored []*certs.FinalityCertificate
+	changes := 0
+	for k := 0; k < n; k++ {
+		g.static = !(k%97 == 13 || k%211 == 5) // the table changes now and then
+		c := g.makeCert()
+		if err := h.Put(ctx, c); err != nil {
+			o.violate("a certificate is admitted as the immediate successor of the latest one", "store-long-put-rejected", map[string]any{"instance": c.GPBFTInstance}, err.Error())
+			return
+		}
+		if len(c.PowerTableDelta) > 0 {
+			changes++
+		}
+		stored = append(stored, c)
+		tables = append(tables, g.table)
+	}
+	desc := map[string]any{"scenario": "long store at the production check-point frequency", "first": first, "certificates": n, "table_changes": changes}
+	check := func(h *certstore.Store, when string) {
+		latest := h.Latest()
+		if latest == nil || latest.GPBFTInstance != first+uint64(n)-1 {
+			o.violate("the latest pointer is the last admitted certificate", "store-long-latest", desc, when)
+			return
+		}
+		rng := func(a, b uint64) {
+			got, err := h.GetRange(ctx, a, b)
+			wantN := 0
+			if a >= first && a < first+uint64(n) {
+				wantN = int(min(b, first+uint64(n)-1) - a + 1)
+			}
+			complete := a >= first && b < first+uint64(n)
+			in := map[string]any{"range": []uint64{a, b}, "stored": []uint64{first, first + uint64(n) - 1}, "when": when}
+			if complete && err != nil {
+				o.violate("range reads return exactly the stored certificates in order", "store-long-range-error", in, err.Error())
+				return
+			}
+			if !complete && err == nil {
+				o.violate("range reads return exactly the stored certificates in order (a range reaching beyond the stored history is reported as incomplete)", "store-long-range-incomplete-unreported", in,
+					fmt.Sprintf("%d certificates returned for a range of %d with no error", len(got), b-a+1))
+				return
+			}
+			if len(got) != wantN {
+				o.violate("range reads return exactly the stored certificates in order", "store-long-range-count", in, fmt.Sprintf("%d returned, %d stored in the range", len(got), wantN))
+				return
+			}
+			for j := range got {
+				if !bytes.Equal(certBytes(&got[j]), certBytes(stored[a-first+uint64(j)])) {
+					o.violate("range reads return exactly the stored certificates in order", "store-long-range-content", in, fmt.Sprint("position ", j))
+					return
+				}
+			}
+			o.count("C09-long-range", fmt.Sprint(a, b), true)
+		}
+		last := first + uint64(n) - 1
+		rng(first, last)
+		rng(first, first+1023)
+		rng(first, first+1024)
+		rng(last-1023, last)   // exactly 1024 stored
+		rng(last-1023, last+5) // 1024 stored, more requested
+		rng(last-1024, last+1) // 1025 stored, more requested
+		rng(first+3, last+1000)
+		for k := 0; k < 6; k++ {
+			a := first + uint64(r.intn(n))
+			rng(a, a+uint64(r.intn(2*n)))
+		}
+		for _, i := range []uint64{first, first + 1, first + 1023, first + 1024, first + 1025, first + 1300, first + 1439, first + 1440, first + 1441, last, last + 1,
+			first + uint64(r.intn(n)), first + uint64(r.intn(n)), first + uint64(r.intn(n))} {
+			if i > last+1 {
+				continue
+			}
+			pt, err := h.GetPowerTable(ctx, i)
+			in := map[string]any{"instance": i, "when": when, "first": first, "latest": last}
+			if err != nil {
+				o.violate("for every instance up to the next one the store returns the power table obtained by applying all earlier deltas to the initial table", "store-long-power-table-error", in, err.Error())
+				continue
+			}
+			want := tables[i-first]
+			ca, _ := certs.MakePowerTableCID(pt)
+			cb, _ := certs.MakePowerTableCID(want)
+			if ca != cb {
+				o.violate("for every instance up to the next one the store returns the power table obtained by applying all earlier deltas to the initial table", "store-long-power-table", in, "")
+			}
+			o.count("C09-long-power-table", fmt.Sprint(i), true)
+		}
+	}
+	check(h, "before reopening")
+	h2, err := certstore.OpenStore(ctx, ds)
+	if err != nil {
+		o.violate("the store returns the same history before and after reopening", "store-long-reopen", desc, err.Error())
+		return
+	}
+	check(h2, "after reopening")
+	o.sample(desc)
 }
